@@ -7,12 +7,15 @@ import GdcVerif.Lemmas.C17
   RLE ones, which are about the hand model `Model/Rle.lean` (tied by C01/C17 correspondence).
   `…Representable` (Lemmas/C17.lean) is written from the formats, not from the code.
 
-  Shape per encoder:
-    * `X_accepts_representable_FullStatement` — the property, as a `Prop`;
-    * if the unchanged code violates it: `X_…_counterexample` (the negation, on a concrete
-      witness, by `decide`) and `X_accepts_representable_partial` (true under the stated
-      complementary hypotheses = exactly the guards the code lacks);
-    * otherwise `X_accepts_representable`.
+  State after the `fix:` commits c081061 … a965712 in /repo: for every encoder
+  `X_accepts_representable` holds at full strength (accepts = true → Representable, all integers,
+  no extra hypothesis), except
+    * JPEG-LS near-lossless: NEAR ≤ MAXVAL/2 is still not enforced (known finding, kept as
+      `_counterexample` + `_partial`);
+    * JPEG 2000: the 32-bit bound of the SIZ size fields is not enforced (`_partial`; the witness
+      needs a ≥ 4 GiB buffer and is not replayable).
+  The witnesses of the repaired defects are kept as `example`s (regression anchors): the
+  regenerated function now rejects them.
 -/
 namespace C17
 open Gen
@@ -30,47 +33,26 @@ example : Dim16 65535 ∧ ¬ Dim16 65536 ∧ ¬ Dim16 0 := by decide
 
 /-! ## JPEG Baseline — jpeg/baseline/encoder.go `Encode` -/
 
-def baseline_accepts_representable_FullStatement : Prop :=
-  ∀ len w h c q, ValidateJpegBaseline.Encode_accepts len w h c q = true → BaselineRepresentable len w h c q
-
-/-- FINDING `jpeg-dim-over-65535`: width 65536 × height 1 is accepted (and declared as width 0) -/
-theorem baseline_accepts_representable_counterexample :
-    ValidateJpegBaseline.Encode_accepts 65536 65536 1 1 90 = true ∧
-    ¬ BaselineRepresentable 65536 65536 1 1 90 := by decide
-
-theorem baseline_FullStatement_false : ¬ baseline_accepts_representable_FullStatement :=
-  fun h => baseline_accepts_representable_counterexample.2 (h _ _ _ _ _ baseline_accepts_representable_counterexample.1)
-
-/-- missing in the code: the upper bound 65535 on width and height (hypotheses `hw`, `hh`).
-    Everything else (positive dimensions, 1|3 components, quality 1..100, buffer length) is proved. -/
-theorem baseline_accepts_representable_partial (len w h c q : Int)
-    (hacc : ValidateJpegBaseline.Encode_accepts len w h c q = true)
-    (hw : w ≤ 65535) (hh : h ≤ 65535) : BaselineRepresentable len w h c q := by
+/-- positive 16-bit dimensions, 1|3 components, quality 1..100, buffer length -/
+theorem baseline_accepts_representable (len w h c q : Int)
+    (hacc : ValidateJpegBaseline.Encode_accepts len w h c q = true) : BaselineRepresentable len w h c q := by
   unfold ValidateJpegBaseline.Encode_accepts at hacc
   unfold BaselineRepresentable Dim16
   simp at hacc
   omega
 
-example : ValidateJpegBaseline.Encode_accepts 12 2 2 3 75 = true ∧ (2 : Int) ≤ 65535 := by decide
+/-- regression anchor (was FINDING `jpeg-dim-over-65535`, fixed by c081061): width 65536 is rejected, 65535 accepted -/
+example : ValidateJpegBaseline.Encode_accepts 65536 65536 1 1 90 = false ∧
+    ValidateJpegBaseline.Encode_accepts 65535 65535 1 1 90 = true := by decide
+
+example : ValidateJpegBaseline.Encode_accepts 12 2 2 3 75 = true := by decide
 
 /-! ## JPEG Extended — jpeg/extended `Encode`, `EncodeSimple`, `encodeSequential12` -/
 
-def extended_accepts_representable_FullStatement : Prop :=
-  ∀ len w h c p q, ValidateJpegExtended.Encode_accepts len w h c p q = true → ExtendedRepresentable len w h c p q
-
-/-- FINDING `jpeg-dim-over-65535` (12-bit path: `encodeSequential12`) -/
-theorem extended_accepts_representable_counterexample :
-    ValidateJpegExtended.Encode_accepts 131072 65536 1 1 12 90 = true ∧
-    ¬ ExtendedRepresentable 131072 65536 1 1 12 90 := by decide
-
-theorem extended_FullStatement_false : ¬ extended_accepts_representable_FullStatement :=
-  fun h => extended_accepts_representable_counterexample.2 (h _ _ _ _ _ _ extended_accepts_representable_counterexample.1)
-
-/-- missing in the code: the upper bound 65535 on width and height. Proved: positive dimensions,
-    depth 8 (1|3 components, 1 byte/sample) or 12 (monochrome, 2 bytes/sample), quality, buffer. -/
-theorem extended_accepts_representable_partial (len w h c p q : Int)
-    (hacc : ValidateJpegExtended.Encode_accepts len w h c p q = true)
-    (hw : w ≤ 65535) (hh : h ≤ 65535) : ExtendedRepresentable len w h c p q := by
+/-- positive 16-bit dimensions, depth 8 (1|3 components, 1 byte/sample) or 12 (monochrome,
+    2 bytes/sample), quality, buffer — through the tail calls into `encodeSequential12` / `baseline.Encode` -/
+theorem extended_accepts_representable (len w h c p q : Int)
+    (hacc : ValidateJpegExtended.Encode_accepts len w h c p q = true) : ExtendedRepresentable len w h c p q := by
   unfold ValidateJpegExtended.Encode_accepts ValidateJpegExtended.EncodeSimple_accepts
     ValidateJpegExtended.encodeSequential12_accepts ValidateJpegBaseline.Encode_accepts
     ValidateJpegExtended.sequential12Precision at hacc
@@ -83,9 +65,8 @@ theorem extended_accepts_representable_partial (len w h c p q : Int)
     omega
 
 /-- the same for the exported `EncodeSimple` entry point -/
-theorem extendedSimple_accepts_representable_partial (len w h c p q : Int)
-    (hacc : ValidateJpegExtended.EncodeSimple_accepts len w h c p q = true)
-    (hw : w ≤ 65535) (hh : h ≤ 65535) : ExtendedRepresentable len w h c p q := by
+theorem extendedSimple_accepts_representable (len w h c p q : Int)
+    (hacc : ValidateJpegExtended.EncodeSimple_accepts len w h c p q = true) : ExtendedRepresentable len w h c p q := by
   unfold ValidateJpegExtended.EncodeSimple_accepts
     ValidateJpegExtended.encodeSequential12_accepts ValidateJpegBaseline.Encode_accepts
     ValidateJpegExtended.sequential12Precision at hacc
@@ -97,28 +78,18 @@ theorem extendedSimple_accepts_representable_partial (len w h c p q : Int)
   · simp [hp] at hacc
     omega
 
+/-- regression anchor (was `jpeg-dim-over-65535` on the 12-bit path, fixed by c081061) -/
+example : ValidateJpegExtended.Encode_accepts 131072 65536 1 1 12 90 = false ∧
+    ValidateJpegExtended.Encode_accepts 131070 65535 1 1 12 90 = true := by decide
+
 example : ValidateJpegExtended.Encode_accepts 8 2 2 1 12 50 = true ∧
     ValidateJpegExtended.Encode_accepts 12 2 2 3 8 50 = true ∧
     ValidateJpegExtended.Encode_accepts 24 2 2 3 12 50 = false := by decide
 
 /-! ## JPEG Lossless — jpeg/lossless/encoder.go `Encode` -/
 
-def lossless_accepts_representable_FullStatement : Prop :=
-  ∀ len w h c p pred, ValidateJpegLossless.Encode_accepts len w h c p pred = true →
-    LosslessRepresentable len w h c p pred
-
-/-- FINDING `jpeg-dim-over-65535` -/
-theorem lossless_accepts_representable_counterexample :
-    ValidateJpegLossless.Encode_accepts 65536 65536 1 1 8 1 = true ∧
-    ¬ LosslessRepresentable 65536 65536 1 1 8 1 := by decide
-
-theorem lossless_FullStatement_false : ¬ lossless_accepts_representable_FullStatement :=
-  fun h => lossless_accepts_representable_counterexample.2 (h _ _ _ _ _ _ lossless_accepts_representable_counterexample.1)
-
-/-- missing in the code: the upper bound 65535 on width and height -/
-theorem lossless_accepts_representable_partial (len w h c p pred : Int)
-    (hacc : ValidateJpegLossless.Encode_accepts len w h c p pred = true)
-    (hw : w ≤ 65535) (hh : h ≤ 65535) : LosslessRepresentable len w h c p pred := by
+theorem lossless_accepts_representable (len w h c p pred : Int)
+    (hacc : ValidateJpegLossless.Encode_accepts len w h c p pred = true) : LosslessRepresentable len w h c p pred := by
   unfold ValidateJpegLossless.Encode_accepts at hacc
   unfold LosslessRepresentable Dim16
   simp at hacc
@@ -126,25 +97,16 @@ theorem lossless_accepts_representable_partial (len w h c p pred : Int)
   rw [tdiv8 p (by omega)] at h5
   omega
 
+/-- regression anchor (was `jpeg-dim-over-65535`, fixed by c081061) -/
+example : ValidateJpegLossless.Encode_accepts 65536 65536 1 1 8 1 = false ∧
+    ValidateJpegLossless.Encode_accepts 65535 65535 1 1 8 1 = true := by decide
+
 example : ValidateJpegLossless.Encode_accepts 24 2 2 3 12 4 = true := by decide
 
 /-! ## JPEG Lossless SV1 — jpeg/lossless14sv1/encoder.go `Encode` (predictor fixed to 1) -/
 
-def sv1_accepts_representable_FullStatement : Prop :=
-  ∀ len w h c p, ValidateJpegSv1.Encode_accepts len w h c p = true → LosslessRepresentable len w h c p 1
-
-/-- FINDING `jpeg-dim-over-65535` -/
-theorem sv1_accepts_representable_counterexample :
-    ValidateJpegSv1.Encode_accepts 65536 1 65536 1 8 = true ∧
-    ¬ LosslessRepresentable 65536 1 65536 1 8 1 := by decide
-
-theorem sv1_FullStatement_false : ¬ sv1_accepts_representable_FullStatement :=
-  fun h => sv1_accepts_representable_counterexample.2 (h _ _ _ _ _ sv1_accepts_representable_counterexample.1)
-
-/-- missing in the code: the upper bound 65535 on width and height -/
-theorem sv1_accepts_representable_partial (len w h c p : Int)
-    (hacc : ValidateJpegSv1.Encode_accepts len w h c p = true)
-    (hw : w ≤ 65535) (hh : h ≤ 65535) : LosslessRepresentable len w h c p 1 := by
+theorem sv1_accepts_representable (len w h c p : Int)
+    (hacc : ValidateJpegSv1.Encode_accepts len w h c p = true) : LosslessRepresentable len w h c p 1 := by
   unfold ValidateJpegSv1.Encode_accepts at hacc
   unfold LosslessRepresentable Dim16
   simp at hacc
@@ -152,35 +114,21 @@ theorem sv1_accepts_representable_partial (len w h c p : Int)
   rw [tdiv8 p (by omega)] at h5
   omega
 
+/-- regression anchor (was `jpeg-dim-over-65535`, fixed by c081061) -/
+example : ValidateJpegSv1.Encode_accepts 65536 1 65536 1 8 = false ∧
+    ValidateJpegSv1.Encode_accepts 65535 1 65535 1 8 = true := by decide
+
 example : ValidateJpegSv1.Encode_accepts 8 2 2 1 16 = true := by decide
 
 /-! ## JPEG-LS lossless — jpegls/lossless/encoder.go `Encode` (NEAR = 0) -/
 
-def jpegls_accepts_representable_FullStatement : Prop :=
-  ∀ len w h c p, JpegLs.Encode_accepts len w h c p = true → JpegLsRepresentable len w h c p 0
-
-/-- FINDING `jpegls-no-buffer-length-check`: a 2×2 image with an empty buffer is accepted
-    (the scan loop then indexes past the buffer: panic) -/
-theorem jpegls_accepts_short_buffer_counterexample :
-    JpegLs.Encode_accepts 0 2 2 1 8 = true ∧ ¬ JpegLsRepresentable 0 2 2 1 8 0 := by decide
-
-/-- FINDING `jpegls-dim-over-65535` -/
-theorem jpegls_accepts_dim_counterexample :
-    JpegLs.Encode_accepts 65536 65536 1 1 8 = true ∧ ¬ JpegLsRepresentable 65536 65536 1 1 8 0 := by decide
-
-theorem jpegls_FullStatement_false : ¬ jpegls_accepts_representable_FullStatement :=
-  fun h => jpegls_accepts_short_buffer_counterexample.2 (h _ _ _ _ _ jpegls_accepts_short_buffer_counterexample.1)
-
-/-- missing in the code: the bound 65535 on width/height AND the whole buffer-length guard
-    (hypothesis `hbuf`). Proved: positive dimensions, 1|3 components, depth 2..16. -/
-theorem jpegls_accepts_representable_partial (len w h c p : Int)
-    (hacc : JpegLs.Encode_accepts len w h c p = true)
-    (hw : w ≤ 65535) (hh : h ≤ 65535) (hbuf : len ≥ w * h * c * bytesPerSample p) :
-    JpegLsRepresentable len w h c p 0 := by
+theorem jpegls_accepts_representable (len w h c p : Int)
+    (hacc : JpegLs.Encode_accepts len w h c p = true) : JpegLsRepresentable len w h c p 0 := by
   unfold JpegLs.Encode_accepts at hacc
   unfold JpegLsRepresentable Dim16
   simp at hacc
-  obtain ⟨h1, h2, h3⟩ := hacc
+  obtain ⟨h1, h2, h3, h4⟩ := hacc
+  rw [tdiv8 p (by omega)] at h4
   have : (1 : Int) ≤ ((2 : Int) ^ p.toNat - 1) / 2 := by
     have h4 : (4 : Int) ≤ (2 : Int) ^ p.toNat := by
       have hn : (2 : Nat) ^ 2 ≤ 2 ^ p.toNat := Nat.pow_le_pow_right (by decide) (by omega)
@@ -188,6 +136,11 @@ theorem jpegls_accepts_representable_partial (len w h c p : Int)
       omega
     omega
   omega
+
+/-- regression anchors (were `jpegls-no-buffer-length-check`, fixed by b0e179c, and
+    `jpegls-dim-over-65535`, fixed by 47d622b) -/
+example : JpegLs.Encode_accepts 0 2 2 1 8 = false ∧ JpegLs.Encode_accepts 3 2 2 1 8 = false ∧
+    JpegLs.Encode_accepts 65536 65536 1 1 8 = false ∧ JpegLs.Encode_accepts 65535 65535 1 1 8 = true := by decide
 
 example : JpegLs.Encode_accepts 4 2 2 1 8 = true := by decide
 
@@ -197,28 +150,30 @@ def jpeglsNear_accepts_representable_FullStatement : Prop :=
   ∀ len w h c p near, ValidateJpegLsNear.Encode_accepts len w h c p near = true →
     JpegLsRepresentable len w h c p near
 
-/-- FINDING `jpegls-near-exceeds-maxval-half`: NEAR = 200 at P = 2 (MAXVAL = 3, limit 1) is accepted -/
+/-- KNOWN FINDING `jpegls-near-exceeds-maxval-half` (not fixed: the repo's own test expects
+    NEAR = 255 at 8 bit): NEAR = 200 at P = 2 (MAXVAL = 3, limit 1) is accepted -/
 theorem jpeglsNear_accepts_near_counterexample :
     ValidateJpegLsNear.Encode_accepts 4 2 2 1 2 200 = true ∧ ¬ JpegLsRepresentable 4 2 2 1 2 200 := by decide
-
-/-- FINDING `jpegls-no-buffer-length-check` (near-lossless entry point) -/
-theorem jpeglsNear_accepts_short_buffer_counterexample :
-    ValidateJpegLsNear.Encode_accepts 0 2 2 1 8 3 = true ∧ ¬ JpegLsRepresentable 0 2 2 1 8 3 := by decide
 
 theorem jpeglsNear_FullStatement_false : ¬ jpeglsNear_accepts_representable_FullStatement :=
   fun h => jpeglsNear_accepts_near_counterexample.2 (h _ _ _ _ _ _ jpeglsNear_accepts_near_counterexample.1)
 
-/-- missing in the code: 65535 bound, buffer-length guard, NEAR ≤ MAXVAL/2.
-    Proved: positive dimensions, components, depth, 0 ≤ NEAR ≤ 255. -/
+/-- missing in the code: NEAR ≤ MAXVAL/2 (hypothesis `hnear`). Proved: 16-bit positive dimensions,
+    components, depth, 0 ≤ NEAR ≤ 255, buffer length. -/
 theorem jpeglsNear_accepts_representable_partial (len w h c p near : Int)
     (hacc : ValidateJpegLsNear.Encode_accepts len w h c p near = true)
-    (hw : w ≤ 65535) (hh : h ≤ 65535) (hbuf : len ≥ w * h * c * bytesPerSample p)
     (hnear : near ≤ ((2 : Int) ^ p.toNat - 1) / 2) :
     JpegLsRepresentable len w h c p near := by
   unfold ValidateJpegLsNear.Encode_accepts at hacc
   unfold JpegLsRepresentable Dim16
   simp at hacc
+  obtain ⟨h1, h2, h3, h4, h5⟩ := hacc
+  rw [tdiv8 p (by omega)] at h5
   omega
+
+/-- regression anchors (were `jpegls-no-buffer-length-check` / `jpegls-dim-over-65535` on this entry point) -/
+example : ValidateJpegLsNear.Encode_accepts 0 2 2 1 8 3 = false ∧
+    ValidateJpegLsNear.Encode_accepts 65536 65536 1 1 8 3 = false := by decide
 
 example : ValidateJpegLsNear.Encode_accepts 4 2 2 1 8 3 = true ∧ (3 : Int) ≤ ((2 : Int) ^ (8 : Int).toNat - 1) / 2 := by decide
 
@@ -239,104 +194,124 @@ def j2kEnc (p : ValidateJ2k.EncodeParams) : ValidateJ2k.Encoder := { (default : 
 example : ValidateJ2k.Encoder.Encode_accepts (j2kEnc j2kDefault16) 256 = true ∧
     J2kRepresentable j2kDefault16 256 := by decide
 
-/-- FINDING `j2k-negative-tile-size`: TileWidth = −1 is accepted -/
-theorem j2k_accepts_negative_tile_counterexample :
-    ValidateJ2k.Encoder.Encode_accepts (j2kEnc { j2kDefault16 with TileWidth := -1 }) 256 = true ∧
-    ¬ J2kRepresentable { j2kDefault16 with TileWidth := -1 } 256 := by decide
+/-- regression anchors — each was a FINDING, now rejected by the regenerated guard chain:
+    `j2k-negative-tile-size` (1b6e509), `j2k-precinct-not-power-of-two` (1434162),
+    `j2k-codeblock-area-over-4096` (e398db4), `j2k-progression-order-unchecked` (4c8a156),
+    `j2k-lossy-quality-unchecked` (a965712), `j2k-layers-over-65535` (fa1268b) -/
+example :
+    ValidateJ2k.Encoder.Encode_accepts (j2kEnc { j2kDefault16 with TileWidth := -1 }) 256 = false ∧
+    ValidateJ2k.Encoder.Encode_accepts (j2kEnc { j2kDefault16 with PrecinctWidth := 3 }) 256 = false ∧
+    ValidateJ2k.Encoder.Encode_accepts (j2kEnc { j2kDefault16 with PrecinctHeight := 65536 }) 256 = false ∧
+    ValidateJ2k.Encoder.Encode_accepts (j2kEnc { j2kDefault16 with CodeBlockWidth := 128, CodeBlockHeight := 128 }) 256 = false ∧
+    ValidateJ2k.Encoder.Encode_accepts (j2kEnc { j2kDefault16 with ProgressionOrder := 9 }) 256 = false ∧
+    ValidateJ2k.Encoder.Encode_accepts (j2kEnc { j2kDefault16 with Lossless := false, Quality := 0 }) 256 = false ∧
+    ValidateJ2k.Encoder.Encode_accepts (j2kEnc { j2kDefault16 with NumLayers := 65536 }) 256 = false := by decide
 
-/-- FINDING `j2k-precinct-not-power-of-two`: PrecinctWidth = 3 is accepted -/
-theorem j2k_accepts_precinct3_counterexample :
-    ValidateJ2k.Encoder.Encode_accepts (j2kEnc { j2kDefault16 with PrecinctWidth := 3 }) 256 = true ∧
-    ¬ J2kRepresentable { j2kDefault16 with PrecinctWidth := 3 } 256 := by decide
+/-- the new guards do not over-reject: the extreme representable values are accepted -/
+example :
+    ValidateJ2k.Encoder.Encode_accepts (j2kEnc { j2kDefault16 with CodeBlockWidth := 128, CodeBlockHeight := 32 }) 256 = true ∧
+    ValidateJ2k.Encoder.Encode_accepts (j2kEnc { j2kDefault16 with CodeBlockWidth := 4, CodeBlockHeight := 1024 }) 256 = true ∧
+    ValidateJ2k.Encoder.Encode_accepts (j2kEnc { j2kDefault16 with PrecinctWidth := 32768, PrecinctHeight := 1 }) 256 = true ∧
+    ValidateJ2k.Encoder.Encode_accepts (j2kEnc { j2kDefault16 with TileWidth := 0, TileHeight := 7 }) 256 = true ∧
+    ValidateJ2k.Encoder.Encode_accepts (j2kEnc { j2kDefault16 with ProgressionOrder := 4, NumLayers := 65535 }) 256 = true ∧
+    ValidateJ2k.Encoder.Encode_accepts (j2kEnc { j2kDefault16 with Lossless := false, Quality := 100 }) 256 = true := by decide
 
-/-- FINDING `j2k-codeblock-area-over-4096`: 128×128 code-blocks are accepted (xcb+ycb = 14 > 12) -/
-theorem j2k_accepts_codeblock_area_counterexample :
-    ValidateJ2k.Encoder.Encode_accepts (j2kEnc { j2kDefault16 with CodeBlockWidth := 128, CodeBlockHeight := 128 }) 256 = true ∧
-    ¬ J2kRepresentable { j2kDefault16 with CodeBlockWidth := 128, CodeBlockHeight := 128 } 256 := by decide
-
-/-- FINDING `j2k-progression-order-unchecked`: ProgressionOrder = 9 is accepted -/
-theorem j2k_accepts_progression_counterexample :
-    ValidateJ2k.Encoder.Encode_accepts (j2kEnc { j2kDefault16 with ProgressionOrder := 9 }) 256 = true ∧
-    ¬ J2kRepresentable { j2kDefault16 with ProgressionOrder := 9 } 256 := by decide
-
-/-- FINDING `j2k-lossy-quality-unchecked`: Lossless = false with Quality = 0 is accepted -/
-theorem j2k_accepts_quality_counterexample :
-    ValidateJ2k.Encoder.Encode_accepts (j2kEnc { j2kDefault16 with Lossless := false, Quality := 0 }) 256 = true ∧
-    ¬ J2kRepresentable { j2kDefault16 with Lossless := false, Quality := 0 } 256 := by decide
+/-- still open, MODEL LEVEL ONLY (class `j2k-dim-over-32bit`): `validateParams` has no upper bound
+    on Width/Height while SIZ carries 32-bit fields. The witness needs a 4 GiB pixel buffer and is
+    not replayed on the real code. -/
+theorem j2k_accepts_size32_counterexample :
+    ValidateJ2k.Encoder.Encode_accepts (j2kEnc { j2kDefault16 with Width := 4294967296, Height := 1 }) 4294967296 = true ∧
+    ¬ J2kRepresentable { j2kDefault16 with Width := 4294967296, Height := 1 } 4294967296 := by decide
 
 theorem j2k_FullStatement_false : ¬ j2k_accepts_representable_FullStatement :=
-  fun h => j2k_accepts_negative_tile_counterexample.2 (h _ _ j2k_accepts_negative_tile_counterexample.1)
+  fun h => j2k_accepts_size32_counterexample.2 (h _ _ j2k_accepts_size32_counterexample.1)
 
-/-- missing in the code (each a hypothesis here): 32-bit bound on the image size, code-block
-    area ≤ 4096, tile sizes ≥ 0, precinct sizes 0 or a power of two ≤ 2^15, layers ≤ 65535,
-    progression order ≤ 4, lossy quality 1..100.
-    Proved from the generated guard chain: positive dimensions, 1..4 components, depth 1..16,
-    levels 0..6, code-block width/height ∈ {4,…,1024} powers of two (via the generated
-    `isPowerOfTwo`), layers ≥ 1, buffer length. -/
+/-- Everything the format predicate asks for is proved from the generated guard chain
+    (`validateParams` ; `convertPixelData` as composed by `Encoder.Encode`): positive dimensions,
+    1..4 components, depth 1..16, levels 0..6, code-block sides ∈ {4,…,1024} powers of two (via the
+    generated `isPowerOfTwo`) with area ≤ 4096, tile sizes ≥ 0, precinct sizes 0 or a power of two
+    ≤ 2^15, 1..65535 layers, progression order ≤ 4, lossy quality 1..100, buffer length —
+    EXCEPT the 32-bit bound on Width/Height (`hW`, `hH`: missing in the code, see the witness above).
+    `hu8` is not a guard but the type invariant of the Go field (`ProgressionOrder uint8`), which
+    go2lean's `Int` reading of the structure drops. -/
 theorem j2k_accepts_representable_partial (e : ValidateJ2k.Encoder) (len : Int)
     (hacc : ValidateJ2k.Encoder.Encode_accepts e len = true)
     (hW : e.params.Width ≤ 4294967295) (hH : e.params.Height ≤ 4294967295)
-    (harea : e.params.CodeBlockWidth * e.params.CodeBlockHeight ≤ 4096)
-    (htile : 0 ≤ e.params.TileWidth ∧ 0 ≤ e.params.TileHeight)
-    (hpw : e.params.PrecinctWidth = 0 ∨ e.params.PrecinctWidth ∈ pow2s 0 15)
-    (hph : e.params.PrecinctHeight = 0 ∨ e.params.PrecinctHeight ∈ pow2s 0 15)
-    (hlay : e.params.NumLayers ≤ 65535)
-    (hprog : 0 ≤ e.params.ProgressionOrder ∧ e.params.ProgressionOrder ≤ 4)
-    (hq : e.params.Lossless = false → 1 ≤ e.params.Quality ∧ e.params.Quality ≤ 100) :
+    (hu8 : 0 ≤ e.params.ProgressionOrder) :
     J2kRepresentable e.params len := by
   unfold ValidateJ2k.Encoder.Encode_accepts ValidateJ2k.Encoder.validateParams_accepts
     ValidateJ2k.Encoder.convertPixelData_accepts at hacc
   simp at hacc
-  obtain ⟨⟨h1, h2, h3, h4, h5, h6, h7⟩, h8⟩ := hacc
-  rw [tdiv8 _ (by omega)] at h8
+  obtain ⟨⟨h1, h2, h3, h4, h5, h6, h7, h8, h9, h10, h11, h12⟩, h13⟩ := hacc
+  rw [tdiv8 _ (by omega)] at h13
   have hcw := isPowerOfTwo_range e.params.CodeBlockWidth (by omega) (by omega) h5.2
   have hch := isPowerOfTwo_range e.params.CodeBlockHeight (by omega) (by omega) h6.2
+  have hpw : e.params.PrecinctWidth = 0 ∨ e.params.PrecinctWidth ∈ pow2s 0 15 := by
+    rcases h10.1 with hz | hz
+    · exact Or.inl hz
+    · exact Or.inr (isPowerOfTwo_precinct _ hz.2 hz.1)
+  have hph : e.params.PrecinctHeight = 0 ∨ e.params.PrecinctHeight ∈ pow2s 0 15 := by
+    rcases h10.2 with hz | hz
+    · exact Or.inl hz
+    · exact Or.inr (isPowerOfTwo_precinct _ hz.2 hz.1)
   unfold J2kRepresentable
-  refine ⟨⟨by omega, hW⟩, ⟨by omega, hH⟩, by omega, by omega, by omega, hcw, hch, harea, htile, hpw, hph,
-    ⟨by omega, hlay⟩, hprog, hq, by omega⟩
+  refine ⟨⟨by omega, hW⟩, ⟨by omega, hH⟩, by omega, by omega, by omega, hcw, hch, by omega, by omega, hpw, hph,
+    by omega, ⟨hu8, by omega⟩, ?_, by omega⟩
+  intro hl
+  rcases h12 with hq | hq
+  · rw [hl] at hq; cases hq
+  · exact hq
 
-/-! ## RLE — rle/rle.go `Codec.encodeFrame` (hand model `Rle.encodeFrame`; no guard to generate) -/
+/-! ## RLE — rle/rle.go `Codec.encodeFrame` (hand model `Rle.encodeFrame`, tied by the C01/C17
+    `rle-enc` correspondence lines; the model carries the guard added by 1dbcb53) -/
 
 /-- PS3.5 Annex G: 1..15 segments (the header has room for 15 offsets); a frame has at least
     one pixel -/
 def RleRepresentable (i : Rle.Info) (len : Nat) : Prop :=
   1 ≤ i.numberOfSegments ∧ i.numberOfSegments ≤ 15 ∧ 1 ≤ i.pixelCount ∧ len ≠ 0
 
-def rle_FullStatement : Prop :=
-  ∀ (i : Rle.Info) (src : Array Rle.Byte),
-    Rle.encodeFrame i src ≠ .panic ∧ (∀ enc, Rle.encodeFrame i src = .ok enc → RleRepresentable i src.size)
+/-- for EVERY frame info and EVERY source buffer (any length, any content) the encoder does not
+    panic: the `offsets[15]` overrun is excluded by the new guard, the `tempBuffer[132]` overrun by
+    C01's encoder invariant (`encodeSegment_spec`), read positions are checked against `len(src)`. -/
+theorem rle_encode_never_panics (i : Rle.Info) (src : Array Rle.Byte) : Rle.encodeFrame i src ≠ .panic := by
+  unfold Rle.encodeFrame
+  split
+  · simp
+  · split
+    · simp
+    · split
+      · simp
+      · rename_i body offs oob heq
+        have hoob : oob = false := encodeSegments_oob i src _ _ _ _ _ _ heq
+        subst hoob
+        simp
 
-/-- FINDING `rle-more-than-15-segments`: BitsAllocated 32 × SamplesPerPixel 4 = 16 segments:
-    `offsets[15]` index panic in `NextSegment` -/
-theorem rle_16_segments_panics :
-    Rle.encodeFrame { width := 1, height := 1, bitsAllocated := 32, spp := 4, planar := 0 }
-      #[1, 2, 3, 4, 5, 6, 7, 8, 9, 10, 11, 12, 13, 14, 15, 16] = .panic := by decide
-
-/-- FINDING `rle-degenerate-frame-accepted`: SamplesPerPixel = 0 (no segment) and Width = 0 (no
-    pixel) yield a stream instead of an error -/
-theorem rle_degenerate_accepted :
-    Rle.encodeFrame { width := 1, height := 1, bitsAllocated := 8, spp := 0, planar := 0 } #[1] ≠ .err ∧
-    Rle.encodeFrame { width := 1, height := 1, bitsAllocated := 8, spp := 0, planar := 0 } #[1] ≠ .panic ∧
-    Rle.encodeFrame { width := 0, height := 3, bitsAllocated := 8, spp := 1, planar := 0 } #[1] ≠ .err ∧
-    Rle.encodeFrame { width := 0, height := 3, bitsAllocated := 8, spp := 1, planar := 0 } #[1] ≠ .panic := by decide
-
-theorem rle_FullStatement_false : ¬ rle_FullStatement :=
-  fun h => (h _ _).1 rle_16_segments_panics
-
-/-- what holds for every input: whenever a stream is returned, the frame has at most 15 byte
-    planes and a non-empty source (never a stream with a truncated segment table).
-    Missing: "no panic" (witness above; under `numberOfSegments ≤ 15` and the exact native length
-    it is C01's `rle_encode_ok`), and the lower bounds `1 ≤ planes`, `1 ≤ pixels`. -/
-theorem rle_stream_implies_representable_partial (i : Rle.Info) (src : Array Rle.Byte) (enc : List Rle.Byte)
-    (h : Rle.encodeFrame i src = .ok enc) : i.numberOfSegments ≤ 15 ∧ src.size ≠ 0 := by
+/-- whenever a stream is returned, the frame is representable -/
+theorem rle_stream_implies_representable (i : Rle.Info) (src : Array Rle.Byte) (enc : List Rle.Byte)
+    (h : Rle.encodeFrame i src = .ok enc) : RleRepresentable i src.size := by
   unfold Rle.encodeFrame at h
+  unfold RleRepresentable
   split at h
   · cases h
   · rename_i hne
     split at h
-    · split at h <;> cases h
-    · exact ⟨by omega, hne⟩
+    · cases h
+    · rename_i hg
+      exact ⟨by omega, by omega, by omega, hne⟩
 
+/-- regression anchor (was FINDING `rle-more-than-15-segments`, fixed by 1dbcb53):
+    BitsAllocated 32 × SamplesPerPixel 4 = 16 segments is now an error, not an `offsets[15]` panic -/
+theorem rle_16_segments_rejected :
+    Rle.encodeFrame { width := 1, height := 1, bitsAllocated := 32, spp := 4, planar := 0 }
+      #[1, 2, 3, 4, 5, 6, 7, 8, 9, 10, 11, 12, 13, 14, 15, 16] = .err := by decide
+
+/-- regression anchor (was FINDING `rle-degenerate-frame-accepted`, fixed by 1dbcb53) -/
+theorem rle_degenerate_rejected :
+    Rle.encodeFrame { width := 1, height := 1, bitsAllocated := 8, spp := 0, planar := 0 } #[1] = .err ∧
+    Rle.encodeFrame { width := 0, height := 3, bitsAllocated := 8, spp := 1, planar := 0 } #[1] = .err ∧
+    Rle.encodeFrame { width := 3, height := 0, bitsAllocated := 8, spp := 1, planar := 0 } #[1] = .err := by decide
+
+/-- non-vacuity: an ordinary frame is encoded (15-plane frames are exercised on the real code and the model by the `rle-enc` lines) -/
 example : Rle.encodeFrame { width := 2, height := 1, bitsAllocated := 8, spp := 1, planar := 0 } #[7, 7] ≠ .panic ∧
     Rle.encodeFrame { width := 2, height := 1, bitsAllocated := 8, spp := 1, planar := 0 } #[7, 7] ≠ .err := by decide
 
@@ -397,5 +372,31 @@ theorem j2kLossy_validate (p : C17Model.J2kLossyParams) :
   repeat' split
   all_goals simp_all
   all_goals omega
+
+/-- jpeg2000/htj2k/parameters.go `Validate` (generated; `nearestPowerOf2` hand-modelled and proved
+    in general, `nearestPowerOf2_range`): for EVERY input the normalised parameters have quality
+    1..100, code-block sides that are powers of two in 4..1024, and 0..6 levels.
+    (The area ≤ 4096 is not enforced here: 1024×1024 survives `Validate` and is now rejected with
+    an error by `validateParams`.) -/
+theorem htj2k_validate (p : ValidateHtj2k.Parameters) :
+    let r := (ValidateHtj2k.Parameters.Validate p).1
+    (1 ≤ r.Quality ∧ r.Quality ≤ 100) ∧ r.BlockWidth ∈ pow2s 2 10 ∧ r.BlockHeight ∈ pow2s 2 10 ∧
+      (0 ≤ r.NumLevels ∧ r.NumLevels ≤ 6) := by
+  have hb : ∀ b : Int, C17Model.nearestPowerOf2 (if b < 4 then 4 else if b > 1024 then 1024 else b) ∈ pow2s 2 10 := by
+    intro b
+    apply nearestPowerOf2_range
+    · repeat' split
+      all_goals omega
+    · repeat' split
+      all_goals omega
+  simp only [htj2k_validate_closed]
+  refine ⟨?_, hb _, hb _, ?_⟩
+  · repeat' split
+    all_goals omega
+  · repeat' split
+    all_goals omega
+
+example : (ValidateHtj2k.Parameters.Validate { Quality := 0, BlockWidth := 100, BlockHeight := 3, NumLevels := 9 }).1 =
+    { Quality := 1, BlockWidth := 128, BlockHeight := 4, NumLevels := 6 } := by decide
 
 end C17
